@@ -19,6 +19,11 @@ import sys
 CUR = None  # the active Sim of this process (one per forked child)
 
 
+class WouldBlockForever(BaseException):
+    """A FIFO whose writer wrote once and closed was opened a second time: the real open() never returns.
+    The simulator reports it instead of blocking; oracles treat it as non-termination."""
+
+
 class SimAbort(BaseException):
     """Models Ctrl-C / sys.exit / os.abort inside user code: not an Exception."""
 
@@ -56,6 +61,8 @@ class Sim:
         self.cb_log = []  # (name, canonical kwargs) of user-code callbacks
         self.hasher = hashlib.sha256()
         self.suspended = 0
+        self.fifo_content = {}  # world-relative path -> what the (one-shot) writer wrote
+        self.fifo_opens = {}
 
     # ---- canonicalisation -------------------------------------------------------------------
     def canon(self, x):
@@ -84,6 +91,7 @@ class Sim:
 
     # ---- ops --------------------------------------------------------------------------------
     def begin_op(self, i, kind):
+        self.fifo_opens = {}  # every operation meets freshly written FIFOs
         self.op = i
         self.op_kinds = []
         self.ops_kinds[i] = self.op_kinds
@@ -373,11 +381,20 @@ def sim_open(file, mode="r", *a, **k):
             except FileNotFoundError:
                 pass
         if st is not None and _stat.S_ISFIFO(st.st_mode):
-            # never block on a FIFO without a writer: the simulated FIFO is at EOF
+            # one-shot FIFO: a writer wrote its content once and closed.  The first open reads it (possibly
+            # nothing: EOF); a second open of the same FIFO would block for ever in reality
             import io
 
+            rp = _os.path.realpath(p)
+            n = s.fifo_opens.get(rp, 0) + 1
+            s.fifo_opens[rp] = n
             s.probe("open-fifo")
-            return SimFile(io.StringIO(""), p)
+            if n > 1:
+                s.probe("fifo-opened-again")
+                s.emit("fifo-would-block", s.canon(rp))
+                raise WouldBlockForever("second open() of the one-shot FIFO %s would block for ever" % s.canon(rp))
+            rel = _os.path.relpath(rp, s.real_root)
+            return SimFile(io.StringIO(s.fifo_content.get(rel, "")), p)
     f = builtins.open(file, mode, *a, **k)
     return SimFile(f, file if isinstance(file, str) else repr(file))
 
